@@ -274,12 +274,20 @@ type TxChecker struct {
 	Tx     ref.Tx
 	Idx    int
 	Amount uint64
+	// BitSelectsDigest models go-bt's recorded deviation L16 (used only to
+	// recognise that finding, never as the oracle): the FORKID bit of the hash
+	// type alone selects the replay-protected digest, even without the flag.
+	BitSelectsDigest bool
 }
 
 // SigDigest returns the digest the node would verify sig against.
 func (c TxChecker) SigDigest(hashType byte, scriptCode []byte, forkIDEnabled bool) []byte {
 	if forkIDEnabled && hashType&0x40 != 0 {
 		_, d := ref.SigHashForkID(c.Tx, c.Idx, scriptCode, c.Amount, uint32(hashType))
+		return d
+	}
+	if c.BitSelectsDigest && hashType&0x40 != 0 {
+		_, d := ref.SigHashForkID(c.Tx, c.Idx, StripCodeSeparators(scriptCode), c.Amount, uint32(hashType))
 		return d
 	}
 	_, d := ref.SigHashLegacy(c.Tx, c.Idx, scriptCode, uint32(hashType), true)
